@@ -78,6 +78,9 @@ def run_chunk(arg):
             r2 = w.batch(["info 1"] + c08.scan_all("r1", bufs) + ["rdestroy 1"])
             if r2[0] != ref["info"] or c08.obs(r2[1:-1]) != ref["obs"]:
                 out.append((it, "C17:%s-accepted:%s:behaves-differently" % (what, where if what == "truncation" else "field=" + field.split("[")[0]), dict(loaded_info=r2[0])))
+            elif what == "corruption" and field in ("magic", "version", "num_buffers"):
+                # header fields have exactly one legal value for a given image
+                out.append((it, "C17:corruption-accepted:field=%s:header-inconsistent-but-loaded" % field, dict(field=field, value=valname)))
             elif what == "corruption" and field.startswith("offset"):
                 # reference model of the table: every buffer starts where the previous one ends (first one right after the table), so ANY
                 # other value of an offset field is an inconsistent table and must be rejected, whatever the loaded rules do afterwards
